@@ -453,6 +453,19 @@ pub fn compare_out_abs(lib: &[f32], reff: &[f64], tol: f64, extra: f64, floor: f
     Ok(exact)
 }
 
+/// the exact computation with every datum moved by one single-precision rounding (alternating sign): how far its
+/// results move is the conditioning of the computation, which no implementation in f32 can beat
+pub fn perturbed_trace(net: &Net, shapes: &[crate::refmodel::net::LShape], p64: &[P<f64>], x64: &[f64]) -> crate::refmodel::net::Trace<f64> {
+    let mut k = 0u32;
+    let mut bump = |v: f64| -> f64 {
+        k = k.wrapping_add(1);
+        v * (1.0 + if k % 2 == 0 { 1.2e-7 } else { -1.2e-7 })
+    };
+    let pp: Vec<P<f64>> = p64.iter().map(|p| P { w: p.w.iter().map(|b| b.iter().map(|v| bump(*v)).collect()).collect(), b: p.b.as_ref().map(|b| b.iter().map(|v| bump(*v)).collect()), inner: p.inner.clone() }).collect();
+    let xp: Vec<f64> = x64.iter().map(|v| bump(*v)).collect();
+    crate::refmodel::net::forward(net, shapes, &pp, &xp, false)
+}
+
 /// build, install parameters, predict; compare with the reference interpreter (either reading of
 /// "the input fed to layer a" when a skip source is itself a target)
 pub fn predict_vs_ref(net: &Net, params: &[P<f32>], x: &[f32], tol: f64) -> Result<PredictOk, Mismatch> {
@@ -484,14 +497,7 @@ pub fn predict_vs_ref(net: &Net, params: &[P<f32>], x: &[f32], tol: f64) -> Resu
     // Deep chains of saturating activations with gains above one amplify rounding exponentially; 64 times that movement
     // is allowed on top of the relative tolerance.
     let extra = {
-        let mut k = 0u32;
-        let mut bump = |v: f64| -> f64 {
-            k = k.wrapping_add(1);
-            v * (1.0 + if k % 2 == 0 { 1.2e-7 } else { -1.2e-7 })
-        };
-        let pp: Vec<P<f64>> = p64.iter().map(|p| P { w: p.w.iter().map(|b| b.iter().map(|v| bump(*v)).collect()).collect(), b: p.b.as_ref().map(|b| b.iter().map(|v| bump(*v)).collect()), inner: p.inner.clone() }).collect();
-        let xp: Vec<f64> = x64.iter().map(|v| bump(*v)).collect();
-        let tp = crate::refmodel::net::forward(net, &shapes, &pp, &xp, false);
+        let tp = perturbed_trace(net, &shapes, &p64, &x64);
         let moved = tp.activated.last().unwrap().iter().zip(want.iter()).fold(0.0f64, |m, (a, b)| m.max((a - b).abs()));
         if moved.is_finite() {
             64.0 * moved
